@@ -289,11 +289,15 @@ def enrich_md(rng, spec, axes=("obs", "samp"), classes=None):
                 lens[rng.randrange(1, len(ids))] = rng.randint(2, 4)
             as_tuple = rng.random() < 0.3
             where = rng.choice(["last", "first", "middle"])
+            undominated = rng.random() < 0.4
             for q, (e, ln) in enumerate(zip(md, lens)):
                 v = ["L%d_%s" % (i, rng.choice("abc")) for i in range(ln)]
                 items = list(e.items())
                 pos = {"last": len(items), "first": 0, "middle": len(items) // 2}[where]
                 items.insert(pos, ("lineage", tuple(v) if as_tuple else v))
+                if undominated:
+                    # a second uneven list whose long ones sit on OTHER IDs: no ID has both at their longest
+                    items.append(("route", ["R%d" % i for i in range(5 - ln)]))
                 e.clear()
                 e.update(items)
         spec[mk] = md
@@ -305,8 +309,9 @@ def md_kind(md):
     'ragged': the same categories, list/tuple-valued ones of uneven length, and SOME ID has every list at its longest
     (the frame takes its column layout from the longest expansion: shorter lists leave their last columns missing,
     every other value stays under its own column - repaired defect 6363233a);
-    'ragged-undominated': no single ID has all lists at their longest (the layout of one entry cannot hold them all:
-    not judged, reported); 'partial': IDs with differing categories (outside the domain of the metadata frame)"""
+    'ragged-undominated': no single ID has all lists at their longest (repaired defect cc0c0aa1: widths are the per-key
+    maxima); 'partial': IDs with differing categories (their missing categories are missing cells).  All kinds are judged;
+    the kind is only counted in the evidence"""
     if md is None or len(md) == 0:
         return "homogeneous"
     keys = [[(k, isinstance(v, (list, tuple))) for k, v in m.items()] for m in md]
@@ -326,7 +331,9 @@ def homogeneous(md):
 
 
 def frame_defined(md):
-    return md_kind(md) in ("homogeneous", "ragged")
+    """since cc0c0aa1 the frame is defined for every annotation: keys in first-seen order, a list category as wide as its
+    longest list, missing where an ID lacks the position or the category"""
+    return True
 
 
 def canon_json(v):
@@ -777,8 +784,10 @@ class Checker:
                     self.ctx.fail({"check": "export-metadata", "tag": tag, "recipe": self.recipe},
                                   "export-metadata wrote a file that was not asked for", list(tags) + [axis])
                 continue
-            if not frame_defined(seen.metadata(axis=axis)):
-                self.ctx.count("export-metadata=skipped-%s" % md_kind(seen.metadata(axis=axis)))
+            if md_kind(seen.metadata(axis=axis)) == "partial":
+                # pandas holds an int/bool column with a missing cell as floats/objects: the TSV TEXT of the numbers
+                # changes ('3' -> '3.0'); the frame itself is judged (numbers by value) in `mdframes`
+                self.ctx.count("export-metadata=skipped-partial")
                 continue
             ids = [str(x) for x in t.ids(axis=axis)]
             md = md_entries(seen, axis, canon_str)
@@ -1037,11 +1046,17 @@ class Checker:
         for name, mk in [("frame-dense", lambda: t.to_dataframe(dense=True)), ("frame-sparse", lambda: t.to_dataframe()),
                          ("sum-sample", lambda: t.sum("sample")), ("sum-observation", lambda: t.sum("observation")),
                          ("nzc", lambda: t.nonzero_counts("sample")), ("matrix-copy", lambda: t.matrix_data.copy())]:
-            x = mk()
+            try:
+                x = mk()
+            except Exception:  # noqa  judged by the accessor of that export
+                continue
             exports[name] = (x, self.snap(x))
         for axis in ("sample", "observation"):
             if t.metadata(axis=axis) is not None and frame_defined(t.metadata(axis=axis)):
-                x = t.metadata_to_dataframe(axis)
+                try:
+                    x = t.metadata_to_dataframe(axis)
+                except Exception:  # noqa  judged (as a raise) by the `mdframes` accessor, not here
+                    continue
                 exports["mdframe-" + axis] = (x, self.snap(x))
         return derived, exports
 
@@ -1078,6 +1093,11 @@ def fixed_corpus():
     import scipy.sparse as sp
     from biom import Table
     out = []
+    # repaired defect cc0c0aa1: two uneven list categories, no ID has both at their longest
+    out.append(("ragged-undominated", lambda: Table(
+        np.array([[1., 2], [3, 4]]), ["A", "B"], ["c", "d"],
+        [{"t": ["t0", "t1", "t2"], "p": ["p0"]}, {"t": ["u0"], "p": ["q0", "q1", "q2"]}],
+        [{"w": ("x",), "n": 1, "v": ["1", "2"]}, {"w": ("x", "y", "z"), "n": 2, "v": ["3"]}])))
     # repaired defect 6363233a: an uneven list category FOLLOWED by another category (values must stay in their columns)
     out.append(("ragged-list-not-last", lambda: Table(
         np.array([[1., 2], [3, 4]]), ["a", "b"], ["c", "d"],
@@ -1342,7 +1362,7 @@ def run(ctx):
                 k_det += 1
                 if not ctx.mine(k_det):
                     continue
-                for name in ("ragged-list-not-last", "md-numeric-text", "ragged-lists"):
+                for name in ("ragged-undominated", "ragged-list-not-last", "md-numeric-text", "ragged-lists"):
                     chk.recipe = {"kind": "fixed", "name": name, "post": "none"}
                     t = from_recipe(chk.recipe)
                     chk.export_md(t, input_obs(t), "fixed:%s/%s/%s" % (name, fmt, which), ("fixed", "export"), fmt,
